@@ -3,6 +3,7 @@
 package vgen
 
 import (
+	"encoding/json"
 	"fmt"
 	"strings"
 
@@ -487,4 +488,10 @@ func Reach(root any, limit int) []pub.Tangible {
 	}
 	visit(root, 0)
 	return out
+}
+
+// JSONString quotes s as a JSON string (invalid UTF-8 becomes U+FFFD, as any JSON encoder would do).
+func JSONString(s string) string {
+	b, _ := json.Marshal(s)
+	return string(b)
 }
